@@ -89,6 +89,11 @@ theorem tverskyAt_half_eq_dice (S : Nat) (p y : Nat → K) (w : Option (Nat → 
   rw [this, div_div_eq_mul_div]
   congr 1; ring
 
+theorem npow_eq (n : Nat) (a : K) : npow n a = a ^ n := by
+  induction n with
+  | zero => simp [npow]
+  | succ n ih => simp [npow, ih, pow_succ]
+
 end Field
 
 section Ordered
